@@ -37,9 +37,17 @@ func init() {
 			if tier == "thorough" {
 				n = 640
 			}
-			return []modeSpec{{name: "provider", n: n, perChild: 1, parallel: 16, netns: true, timeout: 15 * time.Minute}}
+			return []modeSpec{
+				{name: "provider", n: n, perChild: 1, parallel: 16, netns: true, timeout: 15 * time.Minute},
+				{name: "discovery", n: n / 8, perChild: 1, parallel: 8, netns: true, timeout: 15 * time.Minute},
+			}
 		},
-		run:         c20Run,
+		run: func(c *caseCtx) caseResult {
+			if c.mode == "discovery" {
+				return c20Discovery(c)
+			}
+			return c20Run(c)
+		},
 		minDistinct: 10,
 	})
 }
@@ -349,5 +357,152 @@ func c20Run(c *caseCtx) (res caseResult) {
 	case <-stopped:
 	case <-time.After(5 * time.Second):
 	}
+	return res
+}
+
+
+// c20Discovery: 2-4 real nodes find each other through zeroconf inside the child's
+// private network namespace; then one of them dies for real (provider and agent
+// stopped, listener closed). The survivors' providers learn it through their own
+// pings. Hard oracle: a survivor never loses a live member, never lists an unknown
+// id, and its provider never restarts. That discovery and failure detection
+// complete in time is counted, not demanded (both depend on multicast timing).
+func c20Discovery(c *caseCtx) (res caseResult) {
+	r := c.rng
+	wd := watchdog(c.tier)
+	k := 2 + r.Intn(3)
+	base := 34000 + (c.n%500)*8
+	type node struct {
+		id  string
+		cl  *cluster.Cluster
+		rem *remote.Remote
+		mon *eventMonitor
+	}
+	var nodes []*node
+	for i := 0; i < k; i++ {
+		nd := &node{id: fmt.Sprintf("d%d", i)}
+		nd.rem = remote.New(fmt.Sprintf("127.0.0.1:%d", base+i), remote.NewConfig())
+		e, err := actor.NewEngine(actor.NewEngineConfig().WithRemote(nd.rem))
+		if err != nil {
+			res.inconclusive("engine: %v", err)
+			return
+		}
+		nd.mon = &eventMonitor{}
+		mp := e.Spawn(func() actor.Receiver { return nd.mon }, "verifmonitor", actor.WithID("0"))
+		e.Subscribe(mp)
+		cl, err := cluster.New(cluster.NewConfig().WithEngine(e).WithID(nd.id).WithRequestTimeout(60 * time.Second))
+		if err != nil {
+			res.inconclusive("cluster: %v", err)
+			return
+		}
+		nd.cl = cl
+		cl.Start()
+		nodes = append(nodes, nd)
+	}
+	view := func(nd *node) []string {
+		var ids []string
+		for _, m := range nd.cl.Members() {
+			ids = append(ids, m.ID)
+		}
+		sort.Strings(ids)
+		return ids
+	}
+	all := func(except string) []string {
+		var ids []string
+		for _, nd := range nodes {
+			if nd.id != except {
+				ids = append(ids, nd.id)
+			}
+		}
+		sort.Strings(ids)
+		return ids
+	}
+	res.Desc = fmt.Sprintf("discovery nodes=%d", k)
+	complete := waitFor(wd, func() bool {
+		for _, nd := range nodes {
+			if strings.Join(view(nd), ",") != strings.Join(all(""), ",") {
+				return false
+			}
+		}
+		return true
+	})
+	hard := func(when string, alive []string, dead string) {
+		for _, nd := range nodes {
+			if nd.id == dead {
+				continue
+			}
+			v := view(nd)
+			known := map[string]bool{}
+			for _, id := range all("") {
+				known[id] = true
+			}
+			have := map[string]bool{}
+			for _, id := range v {
+				have[id] = true
+				if !known[id] {
+					res.violate("%s: node %s lists an unknown member %q", when, nd.id, id)
+				}
+			}
+			if complete {
+				for _, id := range alive {
+					if !have[id] {
+						res.violate("%s: node %s lost the live member %s (its view: %v)", when, nd.id, id, v)
+					}
+				}
+			}
+			if n := nd.mon.count(func(x any) bool {
+				ev, ok := x.(actor.ActorRestartedEvent)
+				return ok && ev.PID.ID == "provider/"+nd.id
+			}); n > 0 {
+				res.violate("%s: the provider of node %s crashed and was restarted %d time(s)", when, nd.id, n)
+			}
+		}
+	}
+	if complete {
+		res.count("discovery_complete", 1)
+	} else {
+		res.count("discovery_incomplete", 1)
+	}
+	hard("after discovery", all(""), "")
+	// one member dies
+	victim := nodes[r.Intn(k)]
+	stopped := make(chan struct{})
+	go func() { victim.cl.Stop(); victim.rem.Stop().Wait(); close(stopped) }()
+	select {
+	case <-stopped:
+	case <-time.After(wd):
+		res.inconclusive("the victim did not stop")
+		return
+	}
+	removed := waitFor(wd, func() bool {
+		for _, nd := range nodes {
+			if nd.id == victim.id {
+				continue
+			}
+			for _, id := range view(nd) {
+				if id == victim.id {
+					return false
+				}
+			}
+		}
+		return true
+	})
+	if removed {
+		res.count("failure_detected_everywhere", 1)
+	} else {
+		res.count("failure_not_detected_in_time", 1)
+	}
+	hard("after the death of "+victim.id, all(victim.id), victim.id)
+	if complete && removed {
+		res.Sig = sigHash("discovery", k, victim.id)
+	}
+	res.Sample = map[string]any{"scenario": res.Desc, "discovery_complete": complete, "victim": victim.id, "victim_removed_everywhere": removed}
+	for _, nd := range nodes {
+		if nd.id != victim.id {
+			nd := nd
+			go func() { nd.cl.Stop(); nd.rem.Stop() }()
+		}
+	}
+	time.Sleep(200 * time.Millisecond)
 	return res
 }
